@@ -51,6 +51,8 @@ static int shm_leftovers(char *names, size_t n)
 
 /* run qb_log_blackbox_print_from_file(path) in a child; stdout to out_path (or /dev/null).
  * returns wait status; child's stderr in err_path */
+extern int vpguard_fail_mmap_countdown; static int child_fail_mmap;   /* >0: the k-th mmap of the printing child fails */
+static long n_failed_mmap_prints;
 static int print_in_child(const char *path, const char *out_path, const char *err_path)
 {
 	fflush(NULL);
@@ -62,7 +64,9 @@ static int print_in_child(const char *path, const char *out_path, const char *er
 		int e = open(err_path, O_WRONLY | O_CREAT | O_TRUNC, 0600); dup2(e, 2);
 		vp_out = NULL; vp_quiet = 1;
 		signal(SIGABRT, SIG_DFL);
+		vpguard_fail_mmap_countdown = child_fail_mmap;
 		int rc = qb_log_blackbox_print_from_file(path);
+		vpguard_fail_mmap_countdown = 0;
 		fflush(stdout);
 		_exit(rc == 0 ? 0 : 3);
 	}
@@ -231,6 +235,13 @@ static void roundtrip_case(long kase)
 		h = vp_hash_u64(h, (uint64_t)nprinted * 131 + (uint64_t)(first_idx > 0));
 		char left[300]; if (shm_leftovers(left, sizeof left)) { vp_violation("bb:shm-leftover-after-print", "%s", left); if (system("rm -f /dev/shm/qb-create_from_file-*")) {} break; }
 		if (WEXITSTATUS(st) != 0) vp_diag("bb:valid-dump-print-returned-error", "exit %d", WEXITSTATUS(st));
+		/* the same valid dump once more, with the printer running out of address space at its k-th mapping: it has to give up
+		 * with a result code and leave nothing behind in /dev/shm (the name is fixed: a leftover blocks every later print) */
+		if (vp_chance(&r, 1, 4)) for (int k = 1; k <= 6; k++) {
+			child_fail_mmap = k; int st2 = print_in_child(path, NULL, err); child_fail_mmap = 0; n_failed_mmap_prints++;
+			if (!WIFEXITED(st2) || WEXITSTATUS(st2) > 3) { char key[200], det[1000]; classify_crash(st2, err, "mapping-fails", key, sizeof key, det, sizeof det); vp_violation(key, "mmap #%d failing: %s", k, det); break; }
+			char left2[300]; if (shm_leftovers(left2, sizeof left2)) { vp_violation("bb:shm-leftover-after-print:mapping-fails", "after the printer's mmap #%d failed: %s", k, left2); if (system("rm -f /dev/shm/qb-create_from_file-*")) {} break; }
+		}
 	}
 	qb_log_fini();
 	vp_distinct(h);
@@ -378,7 +389,7 @@ int main(int argc, char **argv)
 	vp_count("records_logged", n_logged); vp_count("dumps_written_and_printed", n_dumps); vp_count("records_printed_and_compared", n_printed_records);
 	vp_count("dumps_that_had_wrapped", n_wrapped_dumps); vp_count("files_printed", n_files); vp_count("print_returned_ok", n_rc_ok); vp_count("print_returned_error", n_rc_err);
 	vp_count("truncations", n_truncs); vp_count("field_corruptions", n_field); vp_count("random_corruptions", n_random); vp_count("non_dumps", n_arbitrary);
-	vp_count("cases_with_a_raised_blackbox_line_limit", n_longline_cases); vp_count("records_with_an_empty_message", n_empty_msgs); vp_count("timestamps_compared_exactly", n_ts_exact); vp_count("timestamps_not_judged", n_ts_unjudged);
+	vp_count("prints_with_a_failing_mapping", n_failed_mmap_prints); vp_count("cases_with_a_raised_blackbox_line_limit", n_longline_cases); vp_count("records_with_an_empty_message", n_empty_msgs); vp_count("timestamps_compared_exactly", n_ts_exact); vp_count("timestamps_not_judged", n_ts_unjudged);
 	vp_count("private_dev_shm", private_shm);
 	vp_finish();
 	return 0;
